@@ -100,7 +100,7 @@ def shards(cases, max_bytes=700_000, max_n=120):
 
 def strip(c):
     """a case as written to replay/corpus files: no Coq text, no wire bytes"""
-    return {k: v for k, v in c.items() if k not in ("coq", "wire_hex")}
+    return {k: v for k, v in c.items() if k not in ("coq", "coqj", "wire_hex")}
 
 
 def small(c):
@@ -145,6 +145,8 @@ def run_correspondence(ck, consts):
             for i, c in enumerate(cs):
                 c["id"] = 1000000 + i
                 c["coq"] = re.sub(r"^Case \d+ ", "Case %d " % c["id"], c["coq"])
+                if c.get("coqj"):
+                    c["coqj"] = re.sub(r"^JCase \(Case \d+ ", "JCase (Case %d " % c["id"], c["coqj"])
                 c["class"] = "corpus:" + c["class"]
             cases += cs
     if ck.replay:
@@ -161,6 +163,8 @@ def run_correspondence(ck, consts):
                 for i, c in enumerate(cs):
                     c["id"] = 2000000 + i
                     c["coq"] = re.sub(r"^Case \d+ ", "Case %d " % c["id"], c["coq"])
+                    if c.get("coqj"):
+                        c["coqj"] = re.sub(r"^JCase \(Case \d+ ", "JCase (Case %d " % c["id"], c["coqj"])
                 cases += cs
     n = ck.n(400, 6000)
     outp = os.path.join(ck.work, "decode.jsonl")
@@ -169,6 +173,13 @@ def run_correspondence(ck, consts):
         ck.obligation("harness decode ran", False, out[-1500:])
         return
     cases += load_jsonl(outp)
+    # more Loki JSON documents (two of three damaged by one edit) for the walk model
+    outp2 = os.path.join(ck.work, "lokidoc.jsonl")
+    rc, out = ck.go_run("decode", ["--seed", ck.seed, "--n", ck.n(240, 6000), "--out", outp2], timeout=600, env_extra=dict(henv, C03_ONLY="lokidoc"))
+    if rc != 0:
+        ck.obligation("harness decode (Loki JSON documents) ran", False, out[-1500:])
+        return
+    cases += load_jsonl(outp2)
     byid = {c["id"]: c for c in cases}
     hists = {}
     for c in cases:
@@ -182,9 +193,21 @@ def run_correspondence(ck, consts):
         return [small(x) for x in hists[(c["id"] // 1000000, c["hist"])] if x["step"] <= c["step"]]
     mism, viol, unmod = [], [], []
     from concurrent.futures import ThreadPoolExecutor
-    shs = list(shards(cases))
+    # Loki JSON bodies travel with their document tree and are evaluated through the walk of model/LokiJson.v
+    jcases = [c for c in cases if c.get("coqj")]
+    shs = [("plain", ks) for ks in shards([c for c in cases if not c.get("coqj")])] + \
+          [("tree", ks) for ks in shards([dict(c, coq=c["coqj"]) for c in jcases], max_n=80)]
+
+    def eval_shard(ix):
+        i, (kind, ks) = ix
+        if kind == "plain":
+            return eval_cases(ck, "C03_decode_%d" % i, ks)
+        m, v, out = eval_two(ck, "C03_decodej_%d" % i, JHEADER, "jcase", ks, "jc_check_all")
+        return m, v, ([] if m is not None else None), out
     with ThreadPoolExecutor(max_workers=4) as ex:
-        results = list(ex.map(lambda ks: eval_cases(ck, "C03_decode_%d" % ks[0], ks[1]), enumerate(shs)))
+        results = list(ex.map(eval_shard, enumerate(shs)))
+    ck.extra["loki_json_documents_walked_in_the_model"] = {"written": sum(1 for c in jcases if not c.get("damage")), "damaged": sum(1 for c in jcases if c.get("damage")),
+                                                            "damaged_and_rejected": sum(1 for c in jcases if c.get("damage") and c["obs"]["err"])}
     for m, v, u, out in results:
         if m is None:
             ck.obligation("decode cases evaluated inside Coq", False, out[-2500:])
@@ -229,6 +252,8 @@ def run_correspondence(ck, consts):
                 sig = "responses already sent were overwritten while the parser went on (columns read at the end of the request, as the inserting consumer does)"
             elif c["obs"]["err"]:
                 sig = "request failed: " + c["obs"]["err"] + " (" + c["obs"].get("errmsg", "")[:80] + ")"
+            elif c.get("damage"):
+                sig = "a damaged Loki JSON document is accepted with rows other than one per entry the walk finds in it"
             elif got != c["nrows"]:
                 sig = "row count differs from the number of submitted entries"
             elif any(len({len(k[col]) for col in ("ts", "fp", "msg", "val", "ttl", "type")}) > 1 for k in c["obs"]["chunks"]):
@@ -304,6 +329,10 @@ def run_correspondence(ck, consts):
                   crossed_mib > 0 and crossed_1000 > 0)
     ck.add_samples([small(c) for c in cases if c["nrows"] >= 2 and case_weight(c) < 4000][:3])
 
+
+JHEADER = ("From Coq Require Import List ZArith NArith Bool String Uint63.\n"
+           "From Qryn Require Import model.Decode model.LokiLabels model.LokiTime model.LokiJson.\n"
+           "Import ListNotations.\nOpen Scope string_scope.\nOpen Scope Z_scope.\n")
 
 LHEADER = ("From Coq Require Import List ZArith NArith Bool String Uint63.\n"
            "From Qryn Require Import model.Decode model.LokiLabels.\n"
